@@ -636,10 +636,20 @@ def engine_calls(py, lay):
     if mn is not None and mx is not None and (mx - mn):
         lw = mx - mn
         prod = d * lw
+        bases = [lab]
         if Fraction(prod) != Fraction(d) * Fraction(lw):
             lab2 = dict(lab)
             lab2["density"] = Fraction(prod) / Fraction(lw)
             calls.append(engine_call(py, ideals, lab2))
+            bases.append(lab2)
+        # capacity band: the distributor compares ACCUMULATED double sums of widths with the capacity;
+        # where the exact sum equals the capacity (within a relative 1e-12) the doubles may compare the
+        # other way: the model re-run with the density moved by 1e-12 either way must then agree
+        for b in bases:
+            for sign in (-1, 1):
+                lab3 = dict(b)
+                lab3["density"] = Fraction(b.get("density", eff["density"])) * (1 + sign * Fraction(1, 10 ** 12))
+                calls.append(engine_call(py, ideals, lab3))
     return calls
 
 
@@ -781,11 +791,13 @@ def compare_engine(case, io, mo):
         return None
     if r[0] == "amb":
         raise core.Ambiguous()
-    if len(mo) > 1 and mo[1] is not None:
-        # density*layerWidth is inexact in doubles: the model fed with the density that
-        # reproduces the code's double must then agree
+    for alt in mo[1:]:
+        # density*layerWidth inexact in doubles, or an accumulated sum of widths sitting on the
+        # capacity: the model fed with the adjusted density must then agree exactly
+        if alt is None:
+            continue
         try:
-            r2 = _cmp_engine(case["py"], io["layout"], io, dec_engine(mo[1]))
+            r2 = _cmp_engine(case["py"], io["layout"], io, dec_engine(alt))
         except Amb:
             raise core.Ambiguous()
         if r2 is None or r2[0] == "amb":
